@@ -25,6 +25,7 @@ _PURE = {
     "math.isnan": math.isnan, "math.isinf": math.isinf, "math.isfinite": math.isfinite, "math.copysign": math.copysign, "math.floor": math.floor,
     "math.ceil": math.ceil, "math.trunc": math.trunc, "math.fabs": math.fabs,
     "keyword.iskeyword": _keyword.iskeyword, "keyword.issoftkeyword": getattr(_keyword, "issoftkeyword", lambda s_: False), "iskeyword": _keyword.iskeyword,
+    "calendar.timegm": __import__("calendar").timegm, "timegm": __import__("calendar").timegm,
     "isnan": math.isnan, "isinf": math.isinf, "isfinite": math.isfinite, "copysign": math.copysign,
 }
 _STR_METHODS = {"startswith", "endswith", "strip", "lstrip", "rstrip", "partition", "rpartition", "split", "rsplit", "ljust", "rjust", "zfill", "lower", "upper", "replace",
@@ -265,7 +266,7 @@ def ev(t: Sym, env: Dict[Any, Any]) -> Any:
                 recv = None
             if isinstance(recv, _dt.timedelta):
                 return recv.total_seconds()
-        if t[1][0] == "a" and t[1][2] in ("replace", "utcoffset", "astimezone", "date", "time", "timetz", "toordinal", "dst", "tzname", "isoformat") :
+        if t[1][0] == "a" and t[1][2] in ("replace", "utcoffset", "astimezone", "date", "time", "timetz", "toordinal", "dst", "tzname", "isoformat", "timetuple", "utctimetuple", "timestamp") :
             # pure methods of a datetime given by the scenario
             import datetime as _dt
             try:
